@@ -57,16 +57,17 @@ type Inst struct {
 	// freeGate: a scheduler gate held outside every critical section (gate_free)
 	freeGate chan struct{}
 	// startCancel cancels the context given to the latest Start call
-	startCancel context.CancelFunc
-	np, nd      atomic.Int32
-	gauge       atomic.Int32
-	healthIdx   int
-	partition   string
-	lastSnap    string
-	apiBusy     atomic.Int32
-	lockHeld    atomic.Int32
-	gate        chan struct{}
-	group       string
+	startCancel   context.CancelFunc
+	np, nd        atomic.Int32
+	gauge         atomic.Int32
+	healthIdx     int
+	partition     string
+	lastSnap      string
+	apiBusy       atomic.Int32
+	lockHeld      atomic.Int32
+	transGateUsed atomic.Bool
+	gate          chan struct{}
+	group         string
 }
 
 type prog struct {
@@ -418,7 +419,17 @@ func (m metrics) SetConnectionStatus(v float64, _ prometheus.Labels) {
 }
 func (m metrics) IncTransitions(l prometheus.Labels) {
 	m.w.tr.Emit(m.in.cfg.ID, "m_trans", KV{"from": l["from_state"], "to": l["to_state"]})
-
+	if m.in.cfg.GateTransTo != "" && l["to_state"] == m.in.cfg.GateTransTo && !m.w.closing && m.in.transGateUsed.CompareAndSwap(false, true) {
+		// a scheduler gate inside the critical section that publishes the transition (see ObserveLeaderDuration)
+		ch := make(chan struct{})
+		m.w.mu.Lock()
+		m.in.gate = ch
+		m.w.mu.Unlock()
+		m.in.lockHeld.Add(1)
+		m.w.tr.Emit(m.in.cfg.ID, "gate", KV{"where": "trans_to:" + l["to_state"], "leader": m.in.el.IsLeader()})
+		<-ch
+		m.in.lockHeld.Add(-1)
+	}
 }
 func (m metrics) IncFailures(l prometheus.Labels) {
 	m.w.tr.Emit(m.in.cfg.ID, "m_fail", KV{"type": l["error_type"]})
@@ -1688,6 +1699,37 @@ func (w *World) runGateRelease() {
 			for i := 0; i < 20; i++ {
 				runtime.Gosched()
 			}
+		}
+	}
+	// ... and so is the answer of a store operation that a finished "when" program releases at that very instant
+	for pi := 0; pi < len(w.progs); pi++ {
+		p := w.progs[pi]
+		if p == next || p.idx < len(p.steps) || p.held == nil || p.release != "now" || p.resumeUs != next.resumeUs {
+			continue
+		}
+		w.progs = append(w.progs[:pi], w.progs[pi+1:]...)
+		pi--
+		it := p.held
+		w.mu.Lock()
+		it.held = false
+		it.dueUs = w.tr.NowUs()
+		w.mu.Unlock()
+		w.release(it, w.tr.NowUs())
+		for i := 0; i < 20; i++ {
+			runtime.Gosched()
+		}
+	}
+	// ... and the operation held by the very program whose last step releases the gate
+	if next.held != nil && next.release == "now" && next.idx == len(next.steps)-1 {
+		it := next.held
+		next.held = nil
+		w.mu.Lock()
+		it.held = false
+		it.dueUs = w.tr.NowUs()
+		w.mu.Unlock()
+		w.release(it, w.tr.NowUs())
+		for i := 0; i < 20; i++ {
+			runtime.Gosched()
 		}
 	}
 	st := next.steps[next.idx]
